@@ -271,7 +271,10 @@ LoopBoxes:
 		}
 		f.AddChild(box, boxStartPos)
 		lastBoxType = boxType
-		boxStartPos += boxSize
+		// The next box starts where the reader is, which differs from boxStartPos + boxSize after a box
+		// read with a 16-byte header or with trailing bytes (its re-calculated Size() is smaller).
+		_ = boxSize
+		boxStartPos = uint64(sr.GetPos())
 	}
 	return f, nil
 }
